@@ -43,6 +43,7 @@ def is_sock_pp(t):
 class Sub(S.SeqRule):
     """user = (objs: frozenset of (key, state), binds: frozenset of ((fn name, param), value))"""
     max_depth = 3
+    memo_calls = True
 
     def __init__(self, prog, root, rule, slot, never_fails=(), creators=None, helpers=None, init_of=None):
         super().__init__(prog)
